@@ -350,7 +350,7 @@ def rand_retry(rng):
 def cases(rng, tier):
     out = []
     L = 3 if tier == "quick" else 4
-    n_rand = 5000 if tier == "quick" else 60000
+    n_rand = 5000 if tier == "quick" else 240000
     # systematic: every single outcome and every pair, with a few representative policies
     pols = [["none"], ["false"], ["int", 0], ["int", 1], ["int", 2],
             ["retry", {"total": 2, "read": 0}], ["retry", {"total": 3, "connect": 1, "status": 1, "forcelist": [500, 503]}],
